@@ -367,3 +367,38 @@ def p_c07(ctx):
 def p_c15(ctx):
     viols, cov = body_family(ctx, {"C15"})
     finish(ctx, viols, cov, assumptions=["nothing is asserted about items nested inside a block without schema (unknown type / block schema without body)"])
+
+
+@pipeline("C16")
+def p_c16(ctx):
+    # (1) canonical keys: every listing of every key set -> real NewSchemaKey -> "same set <=> same key"
+    kcases, nk = tlc_cases(ctx, "MC_Keys.tla", "MC_Keys_quick.cfg" if ctx.quick else "MC_Keys_full.cfg", "mckeys")
+    p = ctx.run_hx(["keys", "-cases", kcases, "-out", os.path.join(ctx.work, "kk")])
+    nke = json.loads(p.stdout.strip().splitlines()[-1])["events"]
+    # (2) every feature sees the selected body; links: the "dep" universe of MC_Body (+ DepAgree on the model)
+    dcases, nd = tlc_cases(ctx, "MC_Body.tla", "MC_Body_dep.cfg", "mcdep")
+    p = ctx.run_hx(["body", "-cases", dcases, "-layouts", "2" if ctx.quick else "4", "-out", os.path.join(ctx.work, "bd"), "-seed", str(ctx.seed)])
+    nde = json.loads(p.stdout.strip().splitlines()[-1])["events"]
+    files = sorted(glob.glob(os.path.join(ctx.work, "kk.*.ndjson")) + glob.glob(os.path.join(ctx.work, "bd.*.ndjson")))
+    bad, events = ctx.validate_traces("TraceBody.tla", "TraceBody.cfg", files)
+    viols, samples = [], []
+    for b in bad:
+        if b["prop"] != "C16":
+            continue
+        e = json.loads(open(b["file"]).read().splitlines()[b["l"] - 1])
+        if e["ev"] == "Key":
+            viols.append({"what": b["what"], "replay": {"pipeline": "keys", "ls": e["ls"], "as": e["as"], "key": e["key"]}})
+        else:
+            viols.append({"what": b["what"], "replay": {"pipeline": "body", "case": {"schema": e["schema"], "doc": e["doc"], "cur": e["cur"], "feat": True},
+                                                        "layout": e["layout"], "obs": e["obs"]}})
+    for f in files[:3]:
+        e = json.loads(open(f).readline())
+        samples.append({k: e[k] for k in e if k in ("ev", "ls", "as", "key", "doc", "obs")})
+    finish(ctx, viols, {
+        "evaluations": nke + nde, "distinct_nontrivial": nk + nd,
+        "rule": "case = one listing (permutation) of a set of label/attribute dependency keys (all sets over 3 label indices x 2 values and 3 attribute names x %d values), or one "
+                "(block schema with dependent bodies incl. a second level and defaults, block) pair of the MC_Body 'dep' universe in which every dependent body owns a probe attribute; "
+                "all are non-trivial" % (3 if ctx.quick else 5),
+        "traces_validated_against_impl": len(files), "trace_events": events, "samples": samples, "exhaustive": True},
+        assumptions=["feature agreement is observed through probe attributes: tokens, hover, targets, origins, validation and links must treat exactly the attributes of "
+                     "static + selected dependent body as known; completion and validation against the same Effective() operator are C07/C15"])
